@@ -16,6 +16,7 @@ pub mod c13;
 pub mod c14;
 pub mod c20;
 pub mod c21;
+pub mod c22;
 pub mod c27;
 pub mod c28;
 pub mod c32;
@@ -56,6 +57,7 @@ pub fn dispatch(ctx: &Ctx, replay: Option<&str>) -> i32 {
         "C14" => c14,
         "C20" => c20,
         "C21" => c21,
+        "C22" => c22,
         "C27" => c27,
         "C28" => c28,
         "C29" => c29,
